@@ -20,6 +20,9 @@ pub struct Case {
     pub requests: usize,
     /// further requests after the first `None`
     pub extra_polls: usize,
+    /// the source reports its exact remaining length via size_hint
+    #[serde(default)]
+    pub exact_size: bool,
 }
 
 pub struct C15;
@@ -68,9 +71,10 @@ fn lazy<L: LangInterpreter>(
     log: &Log,
     max_requests: usize,
     extra_polls: usize,
+    exact_size: bool,
 ) -> Result<LazyRun, String> {
     guarded(|| {
-        let src = SimSource { toks, next: 0, log };
+        let src = SimSource { toks, next: 0, log, exact_size };
         let mut it = find_numbers_iter(src, l, thr);
         let mut got = vec![];
         let mut pulls_after = vec![];
@@ -124,7 +128,7 @@ fn exec<L: LangInterpreter>(l: &L, case: &Case, stats: &mut Stats) -> RunResult 
     let log_b = Log::new();
     let b = batch(l, toks, thr, &log_b);
     let log_l = Log::new();
-    let lz = lazy(l, toks, thr, &log_l, usize::MAX, case.extra_polls);
+    let lz = lazy(l, toks, thr, &log_l, usize::MAX, case.extra_polls, case.exact_size);
     let events = log_b.seq.get() + log_l.seq.get();
 
     let (b, lz) = match (b, lz) {
@@ -197,7 +201,7 @@ fn exec<L: LangInterpreter>(l: &L, case: &Case, stats: &mut Stats) -> RunResult 
 
     // O2 cancellation: k requests then drop
     let log_c = Log::new();
-    match lazy(l, toks, thr, &log_c, case.requests, 0) {
+    match lazy(l, toks, thr, &log_c, case.requests, 0, case.exact_size) {
         Ok(c) => {
             let want = &b[..case.requests.min(b.len())];
             if c.got != want {
@@ -397,7 +401,7 @@ impl Check for C15 {
         }
         let requests = *rng.pick(&[0usize, 1, 1, 2, 3, 5, 1000, 1000]);
         let extra_polls = rng.below(4);
-        Case { lang, concrete, thr, toks, requests, extra_polls }
+        Case { lang, concrete, thr, toks, requests, extra_polls, exact_size: rng.chance(1, 2) }
     }
 
     fn execute(&self, case: &Case, stats: &mut Stats) -> RunResult {
@@ -441,6 +445,9 @@ impl Check for C15 {
         }
         if case.extra_polls > 0 {
             out.push(Case { extra_polls: 0, ..case.clone() });
+        }
+        if case.exact_size {
+            out.push(Case { exact_size: false, ..case.clone() });
         }
         if case.requests > 0 {
             out.push(Case { requests: 0, ..case.clone() });
